@@ -281,7 +281,15 @@ def execute_scenario(engine, scenario, tag, timeout=None, cov=False):
     else:
         rec['stats'] = final.get('stats', {})
         if final.get('violation'):
-            rec['verdict'], rec['violation'] = 'violation', final['violation']
+            v = final['violation']
+            det = str(v.get('detail'))
+            if ('No space left on device' in det or 'Disk quota exceeded' in det or 'Too many open files in system' in det) \
+                    and 'injected' not in det and 'fault' not in v.get('oracle', ''):
+                # the sandbox itself ran out of space: an environment problem, not a verdict
+                rec['verdict'] = 'harness_error'
+                rec['detail'] = 'environment: ' + det[:300]
+            else:
+                rec['verdict'], rec['violation'] = 'violation', v
     loglines = [canon(e) for e in events]
     loglines.append(canon({'verdict': rec['verdict'],
                            'sig': (rec['violation'] or {}).get('signature')}))
